@@ -26,6 +26,8 @@ def _gen(self, a, kind):
 @H('vars')
 def b_vars(self, a, kw):
   v = self.deref(a[0])
+  if isinstance(v, SV) and isinstance(v.sort, Union) and not getattr(v.sort, 'vars_hook', None) and not self.spec_mode:
+    v = self.unwrap(v)
   if isinstance(v, SV) and getattr(v.sort, 'vars_hook', None):
     return v.sort.vars_hook(self, v)
   raise OutsideSubset('vars() of this object')
@@ -281,11 +283,31 @@ def b_type(self, a, kw):
   v = self.deref(a[0])
   if isinstance(v, SV) and getattr(v.sort, 'construct_like', None):
     return Handler('type(x)', lambda ex, aa, kk, v=v: v.sort.construct_like(ex, v, aa, kk), 'type(x)(...) constructor')
+  if isinstance(v, SV) and isinstance(v.sort, Union) and not self.spec_mode:
+    v = self.unwrap(v)
+  if isinstance(v, SV) and getattr(v.sort, 'type_hook', None):
+    return v.sort.type_hook(self, v)     # the class object as a value
   raise OutsideSubset(f'type({v!r})')
+
+
+@H('issubclass')
+def b_issubclass(self, a, kw):
+  v = self.deref(a[0])
+  t = a[1]
+  tags = list(t) if isinstance(t, PyTuple) else [t]
+  if isinstance(v, SV) and getattr(v.sort, 'issubclass_hook', None):
+    return SV(BOOL, v.sort.issubclass_hook(self, v, {getattr(x, 'name', None) for x in tags}))
+  raise OutsideSubset('issubclass')
 
 
 @H('hasattr')
 def b_hasattr(self, a, kw):
+  v = self.deref(a[0])
+  if isinstance(v, SV) and isinstance(v.sort, Union) and not self.spec_mode:
+    v = self.unwrap(v)
+  name = self.deref(a[1])
+  if isinstance(v, SV) and getattr(v.sort, 'hasattr_hook', None) and isinstance(name, Lit):
+    return v.sort.hasattr_hook(self, v, name.py)
   raise OutsideSubset('hasattr')
 
 
@@ -380,14 +402,51 @@ def b_str(self, a, kw):
   raise OutsideSubset(f'str({v!r})')
 
 
+def _sorted_by_key(self, it, es, keyfn):
+  """sorted(items, key=f) for an integer-valued key function: the stable permutation of the items in
+  ascending key order. The key function is evaluated symbolically on an arbitrary element."""
+  if es is None:
+    raise OutsideSubset('sorted(key=) of untyped items')
+  S = SeqOf(es)
+  src = self.deref(_to_seq(self, [it], 'tuple'))
+  r = S.const('sorted')
+  n = S.len(src.t)
+  i, j = z3.Int(fresh_name('i')), z3.Int(fresh_name('j'))
+  pi = z3.Function(fresh_name('perm'), z3.IntSort(), z3.IntSort())
+  pinv = z3.Function(fresh_name('perminv'), z3.IntSort(), z3.IntSort())
+  inr = lambda e: z3.And(e >= 0, e < n)
+  x = z3.Const(fresh_name('kx'), es.z3())
+  saved = self.spec_mode
+  self.spec_mode = True
+  self.push_binders([x])
+  try:
+    kx = self.coerce(self.call_value(keyfn, [SV(es, x)], {}), INT).t
+  finally:
+    self.pop_binders(1)
+    self.spec_mode = saved
+  key = lambda t: z3.substitute(kx, (x, t))
+  self.assume(S.len(r) == n)
+  self.assume(qforall([i], z3.Implies(inr(i), z3.And(inr(pi(i)), pinv(pi(i)) == i, S.get(r, i) == S.get(src.t, pi(i)))), patterns=[S.get(r, i)]))
+  self.assume(qforall([j], z3.Implies(inr(j), z3.And(inr(pinv(j)), pi(pinv(j)) == j, S.get(r, pinv(j)) == S.get(src.t, j))), patterns=[S.get(src.t, j)]))
+  self.assume(qforall([j], z3.Implies(inr(j), z3.And(inr(pinv(j)), pi(pinv(j)) == j)), patterns=[pinv(j)]))
+  # ascending keys; equal keys keep their source order (stable)
+  self.assume(qforall([i, j], z3.Implies(z3.And(inr(i), inr(j), i < j),
+                                         z3.And(key(S.get(r, i)) <= key(S.get(r, j)),
+                                                z3.Implies(key(S.get(r, i)) == key(S.get(r, j)), pi(i) < pi(j)))),
+                      patterns=[z3.MultiPattern(S.get(r, i), S.get(r, j))]))
+  return self.new_box(SV(S, r))
+
+
 @H('sorted')
 def b_sorted(self, a, kw):
   """sorted(iterable) over an opaque sort: the permutation of the items ordered by an
   uninterpreted strict total order lt!<Sort> (python string / tuple comparison)."""
-  if kw:
-    raise OutsideSubset('sorted() with key=/reverse=: give a Handler in the sidecar bindings')
+  if kw and set(kw) != {'key'}:
+    raise OutsideSubset('sorted() with reverse=: give a Handler in the sidecar bindings')
   it = as_iter(self, a[0])
   es = it.elem_sort
+  if 'key' in kw:
+    return _sorted_by_key(self, it, es, kw['key'])
   if es is None or not isinstance(es, Opaque):
     raise OutsideSubset('sorted() of non-opaque items')
   S = SeqOf(es)
@@ -464,6 +523,15 @@ def b_dom(self, a, kw):
   if isinstance(v, SV) and isinstance(v.sort, MapOf):
     return SV(SetOf(v.sort.key), v.sort.dom(v.t))
   raise OutsideSubset('dom() of a non-map')
+
+
+@H('map_set')
+def b_map_set(self, a, kw):
+  """spec function: the map m with key k set to v ({**m, k: v})"""
+  m = self.deref(a[0])
+  if isinstance(m, SV) and isinstance(m.sort, MapOf):
+    return self.map_set(m, a[1], a[2])
+  raise OutsideSubset('map_set() of a non-map')
 
 
 @H('subset')
